@@ -71,8 +71,8 @@ Proof. vm_compute. repeat split; discriminate. Qed.
 Example C07_fallback_nonvacuous :
   let img := [[XFin 0; XFin 1]; [XFin 0; XFin 0]] in
   let xc := [Some 0; Some 1] in let yc := [Some 0; Some 1] in
-  rect img /\ diag_key key_euclid xc yc img = Some 2 /\ ele (EFin 2) (EFin 2) = true /\
-  run_dask key_euclid (fun _ => false) (EFin 5) (EFin 2) xc yc [] img (EFin 2) [1; 1] [1; 1] 1 1 =
+  rect img /\ diag_key (metric_of_key key_euclid) xc yc img = Some 2 /\ ele (EFin 2) (EFin 2) = true /\
+  run_dask (metric_of_key key_euclid) (fun _ => false) (EFin 5) (EFin 2) xc yc [] img (EFin 2) [1; 1] [1; 1] 1 1 =
   [[(LVal (EFin 1), Some (0, 1)); (LVal (EFin 0), Some (0, 1))];
    [(LVal (EFin 2), Some (0, 1)); (LVal (EFin 1), Some (0, 1))]].
 Proof.
